@@ -202,6 +202,13 @@ def check_restores(ck, cr, R):
     arg_ok = bool(calls) and "cp.inner" in show(rc.expr_op(calls[0][1]["args"][1]))
     ck.ob(R,"restore_checkpoint|inner", arg_ok, "restore_checkpoint restores the vectors through the transparent restore of cp.inner",
           site=rc.where(0), detail=[show(rc.expr_op(t["args"][1])) for _, t in calls])
+    # order: the transparent restore ADDS what it truncates to the ghost counters, so the counters must be set from the
+    # checkpoint AFTER it (otherwise everything allocated since the checkpoint stays counted)
+    set_blocks = [e.b for e in efs if e.kind == "ghost-set"]
+    order_ok = bool(calls) and len(set_blocks) == 3 and all(rc.dominates(calls[0][0], sb) and sb != calls[0][0] for sb in set_blocks)
+    ck.ob(R, "restore_checkpoint|order", order_ok,
+          "the ghost counters are assigned from the checkpoint after the transparent restore (which itself adds to them)",
+          site=rc.where(calls[0][0]) if calls else rc.where(0), detail={"restore call block": calls[0][0] if calls else None, "assignment blocks": set_blocks})
     ck.ob(R,"restore_checkpoint|no other effect", len(efs) == 3 and all(e.kind == "ghost-set" for e in efs),
           "restore_checkpoint has no other effect on counted storage", site=rc.where(0), detail=[e.what for e in efs])
     # checkpoint() literal: each ghost field from the same-named counter
